@@ -98,6 +98,10 @@
      - Legacy: CLOSED - the repaired retain on the history of F3 is now
        C04_retain_fixed_same_history (+ _outcome); the Example
        C04_example_retain_fixed is kept.
+   SECOND ADDENDUM (very end of this file, lemmas in Proofs/MoreHist.v): histories
+     with panicking stateful predicates / entry closures / Clone / source iterators,
+     any environment: C04_cstep_keeps, C04_crun_any_env_safe, C04_crun_NoDup,
+     C04_crun_no_double_drop, C04_replace_g_build_panic_keeps_self
    AUDIT ADDENDUM (end of this file, lemmas in Proofs/MoreOwned.v) - NOW COVERED:
      - "no element has been or will later be destroyed twice" ALONG A HISTORY,
        every environment                   C04_run_NoDup, C04_run_no_double_drop,
@@ -943,3 +947,97 @@ Example C04_example_clone_from_drop_panic :
   get_m 1 (snd (step false (sc_drop 5) (OCloneFrom 0 1) x)) <> get_m 1 x /\
   get_m 0 (snd (step false (sc_drop 5) (OCloneFrom 0 1) x)) = get_m 0 x.
 Proof. vm_compute. repeat split; try reflexivity. discriminate. Qed.
+
+
+(* ========================================================================== *)
+(* ADDENDUM 2 (second audit round).  New lemmas: Proofs/MoreHist.v.
+   cop / cstep / cfinal / c_ins / c_outs / c_ok / cins / couts, replace_g,
+   detach_g, fresh_w: see ADDENDUM 2 of Props/C02.v.  cstep is a history
+   interpreter for an ARBITRARY environment whose steps include retain with a
+   stateful predicate that may panic, entry closures that may panic
+   (or_insert_with, or_insert_with_key, and_modify), get_disjoint_mut(_unchecked),
+   clone_from, collect from a source that may panic, ==, consuming iterators
+   (into_iter / into_keys / into_values) dropped or forgotten midway, forgotten
+   drains, and all operations of Dict2.
+   c_safe o := the other container of CCloneFrom / CEq is well-formed; True
+   otherwise.  keeps c := from WF, in BOTH outcomes, WF and same capacity.      *)
+(* ========================================================================== *)
+Require Import Proofs.MoreHist.
+
+(* -------------------------------------------------------------------------- *)
+(* "If key comparison, Clone, Drop, a retain predicate, an entry closure or a
+   source iterator panics in the middle of any Map operation, then ... every
+   container involved is well-formed and can be used ... normally": along ANY
+   history of cstep, for EVERY environment (any number of panics at any callback
+   position, not just one): no UB, the container is WF after every step, whether
+   it returned or unwound, and the history continues on the unwound state *)
+Theorem C04_cstep_keeps :
+  forall (K V Q T : Type) (E : env K V Q T) (debug : bool) (o : cop),
+  c_safe o -> keeps (cstep E debug o).
+Proof. exact (@cstep_keeps). Qed.
+Print Assumptions C04_cstep_keeps.
+
+Theorem C04_crun_any_env_safe :
+  forall (K V Q T : Type) (E : env K V Q T) (debug : bool) (ops : list cop) (w : world K V T),
+  WF (self w) ->
+  Forall c_safe ops ->
+  exists wf : world K V T,
+    cfinal E debug ops w = Some wf /\ WF (self wf) /\ cap (self wf) = cap (self w).
+Proof. exact (@crun_any_env_safe). Qed.
+Print Assumptions C04_crun_any_env_safe.
+
+(* "no element has been or will later be destroyed twice" along such histories:
+   with fresh taken-in identities (arguments and every object user code creates:
+   cins), no identity occurs twice among stored ++ with the caller ++ extra ++
+   destroyed at the end; c_ok: value-rewriting closures keep the value's identity *)
+Theorem C04_crun_NoDup :
+  forall (K V Q T : Type) (E : env K V Q T) (debug : bool) (ops : list cop)
+    (w wf : world K V T) (extra : list N),
+  WF (self w) ->
+  Forall (c_ok E) ops ->
+  NoDup (owned E (self w) ++ cins E debug ops w ++ extra ++ dropped (log w)) ->
+  cfinal E debug ops w = Some wf ->
+  NoDup (owned E (self wf) ++ couts E debug ops w ++ extra ++ dropped (log wf)).
+Proof. exact (@crun_NoDup). Qed.
+Print Assumptions C04_crun_NoDup.
+
+Theorem C04_crun_no_double_drop :
+  forall (K V Q T : Type) (E : env K V Q T) (debug : bool) (ops : list cop)
+    (w wf : world K V T),
+  WF (self w) ->
+  Forall (c_ok E) ops ->
+  NoDup (owned E (self w) ++ cins E debug ops w ++ dropped (log w)) ->
+  cfinal E debug ops w = Some wf ->
+  NoDup (dropped (log wf)) /\
+  NoDup (owned E (self wf)) /\
+  (forall x : N,
+   In x (owned E (self wf)) -> ~ In x (dropped (log wf)) /\ ~ In x (couts E debug ops w)) /\
+  (forall x : N, In x (couts E debug ops w) -> ~ In x (dropped (log wf))).
+Proof. exact (@crun_no_double_drop). Qed.
+Print Assumptions C04_crun_no_double_drop.
+
+(* "a partially built clone or collection": when the build of clone_from /
+   collect panics, the register keeps its old contents (generic form of
+   C04_replace_with_build_panic_keeps_self) *)
+Theorem C04_replace_g_build_panic_keeps_self :
+  forall (K V Q T : Type) (E : env K V Q T) (build : M K V T unit) (w w1 : world K V T),
+  build (fresh_w w) = Panic w1 ->
+  exists w' : world K V T, replace_g E build w = Panic w' /\ self w' = self w.
+Proof. exact (@replace_g_build_panic_keeps_self). Qed.
+Print Assumptions C04_replace_g_build_panic_keeps_self.
+
+(* non-vacuity: a history with panicking closures / Clone: C02_example_cops_ok,
+   C02_example_cops_clone_panic (Props/C02.v).  Here: the closure of
+   or_insert_with panics (closure call number 0 of script fk = 4): the call
+   unwinds, the key 7 is destroyed once, the full map is untouched, and a later
+   retain with the stateful predicate runs normally *)
+Example C04_example_cop_closure_panic :
+  let sc := {| sc_adv := false; sc_seed := 0; sc_fk := 4; sc_fa := 0 |} in
+  let ops := [CEntryWith (k_ 7 9) (mk_val sc (v_ 8 1)); CRetainF (pred_m sc 1 [(5, 0)]%N)] in
+  Forall (@c_safe key vobj query cstate) ops /\
+  match cfinal (env_map sc) false ops (w_of m3) with
+  | Some wf => Spec.elems (self wf) = [(k_ 5 7, v_ 6 9); (k_ 3 6, v_ 4 8)] /\
+               dropped (log wf) = [7; 1; 2]%N
+  | None => False
+  end.
+Proof. cbv zeta. split; [repeat constructor|]. vm_compute. split; reflexivity. Qed.
